@@ -201,7 +201,7 @@ func urlCases(thorough bool) []urlCase {
 	if thorough {
 		paths = append(paths, [2]string{"/a+b", "a+b"}, [2]string{"/sp%C3%A9", "spé"})
 	}
-	queries := []string{"", "?a=b"}
+	queries := []string{"", "?a=b", "?&", "?a;b", "?%zz", "?x=%G1"} // incl. queries without any decodable pair: still queries
 	frags := []string{"", "#f"}
 	var out []urlCase
 	for _, s := range schemes {
